@@ -156,17 +156,27 @@ Definition cl_add_interface (st : cl_state) (extend : bool) (name : str) (cands 
               cls_graph := cl_link (cls_graph st) name impls |}
   end.
 
-(* object_type_definition: self_name is None *)
-Definition cl_add_object (st : cl_state) (extend : bool) (name : str) (cands : list str)
+(* object_type_definition.  `self` is the self_name argument handed to additional_implements: Some(&name) in
+   the code as it is (repair fix2-c32-1), None before it *)
+Definition cl_add_object_with (self : option str) (st : cl_state) (extend : bool) (name : str) (cands : list str)
     (new_fields : list cl_field) : option cl_state :=
   let existing := cl_fields_of (cls_objs st) name in
-  match cl_additional_implements (cls_ifaces st) (cls_graph st) existing None cands with
+  match cl_additional_implements (cls_ifaces st) (cls_graph st) existing self cands with
   | None => None
   | Some impls =>
       let d := {| cld_name := name; cld_extend := extend; cld_impls := impls; cld_fields := new_fields |} in
       Some {| cls_ifaces := cls_ifaces st; cls_objs := cls_objs st ++ [d];
               cls_graph := cl_link (cls_graph st) name impls |}
   end.
+
+Definition cl_add_object (st : cl_state) (extend : bool) (name : str) (cands : list str)
+    (new_fields : list cl_field) : option cl_state :=
+  cl_add_object_with (Some name) st extend name cands new_fields.
+
+(* the code before the repair: the interfaces the object already implements were not excluded *)
+Definition cl_add_object_old (st : cl_state) (extend : bool) (name : str) (cands : list str)
+    (new_fields : list cl_field) : option cl_state :=
+  cl_add_object_with None st extend name cands new_fields.
 
 (* ---- backfill ---- *)
 (* base_def_index *)
